@@ -8,6 +8,19 @@ namespace Pool
 def dropWaiter (p : Pool) (m : Nat) : Pool :=
   { p with sem := { p.sem with waiters := (removeWaiterL m p.sem.waiters).2 } }
 
+theorem removeWaiterL_sub (m : Nat) (ws : List Waiter) : ∀ w, w ∈ (removeWaiterL m ws).2 → w ∈ ws := by
+  induction ws with
+  | nil => intro w hw; simp [removeWaiterL] at hw
+  | cons w0 ws ih =>
+    intro w hw
+    unfold removeWaiterL at hw
+    split at hw
+    · exact List.mem_cons_of_mem _ hw
+    · simp only at hw
+      rcases List.mem_cons.mp hw with rfl | h
+      · exact List.mem_cons_self
+      · exact List.mem_cons_of_mem _ (ih w h)
+
 theorem wakeNext_regs (p : Pool) :
     let q := (({ p with sem := p.sem.wakeNext.1 } : Pool).schedOpt p.sem.wakeNext.2)
     q.running = p.running ∧ q.cancelledR = p.cancelledR ∧ q.ended = p.ended ∧ q.lost = p.lost := by
@@ -36,10 +49,10 @@ theorem wakeNext_mapFrame (p : Pool) :
 
 /-- `acquire()` returned in `_start_task`: the task is created; `k` = the map slot the spawner carried (1 for a map
 request, 0 otherwise) is now in flight and goes to the new task -/
-theorem roomGranted_tail {cap : Cap} {L : Bool} (p : Pool) (m : Nat) (isMap : Bool) (hph : PhaseOK p) (hreg : RegOK p)
-    (hgrp : GroupsOK p) (hlife : LifeOK p) (hpre : SlotPre cap p) (hst : Strict L p)
+theorem roomGranted_tail {cap : Cap} {L R : Bool} (p : Pool) (m : Nat) (isMap : Bool) (hph : PhaseOK p) (hreg : RegOK p)
+    (hgrp : GroupsOK p) (hlife : LifeOK p) (hpre : SlotPre cap p) (hst : Strict L R p)
     (hmap : MapMid p m (if isMap then 1 else 0)) (hlt : m < p.reqs.length) (hfl : FlushOK p) :
-    Good cap L (((if (!p.sem.value.isZero) = true then (({ p with sem := p.sem.wakeNext.1 } : Pool).schedOpt p.sem.wakeNext.2) else p).createTask m
+    Good cap L R (((if (!p.sem.value.isZero) = true then (({ p with sem := p.sem.wakeNext.1 } : Pool).schedOpt p.sem.wakeNext.2) else p).createTask m
       isMap).continueSpawner m) := by
   split
   · rename_i hz
@@ -47,9 +60,15 @@ theorem roomGranted_tail {cap : Cap} {L : Bool} (p : Pool) (m : Nat) (isMap : Bo
     obtain ⟨r1, r2, r3, r4⟩ := wakeNext_regs p
     have hlt' : m < (({ p with sem := p.sem.wakeNext.1 } : Pool).schedOpt p.sem.wakeNext.2).reqs.length :=
       Nat.lt_of_lt_of_le hlt (wakeNext_mapFrame p).rql
+    -- `_wake_up_next` re-establishes the no-lost-wake-up invariant outright
+    have hwk' : WakeOK (({ p with sem := p.sem.wakeNext.1 } : Pool).schedOpt p.sem.wakeNext.2) := by
+      intro _ v _ _ hgr
+      have hs : (({ p with sem := p.sem.wakeNext.1 } : Pool).schedOpt p.sem.wakeNext.2).sem = p.sem.wakeNext.1 := by simp
+      rw [hs] at hgr ⊢
+      exact Sem.wakeNext_wake p.sem hgr
     refine good_continueSpawner _ m ⟨good0_createTask_afterTake _ m _ ?_ (hreg.of_eq h3 r1 r2 r3 r4)
-      (hgrp.of_eq (by simp) (by rw [h3])) (hlife.of_eq h3 r4) ?_ (hst.of_eq r4 (wakeNext_apis p))
-      (hfl.frame (by simp) (wakeNext_apis p) (fun t ⟨tk, a, b⟩ => ⟨tk, by rw [h3]; exact a, b⟩)),
+      (hgrp.of_eq (by simp) (by rw [h3])) (hlife.of_eq h3 r4) ?_ (hst.of_eq r4 (wakeNext_apis p) (by simp))
+      (hfl.frame (by simp) (wakeNext_apis p) (fun t ⟨tk, a, b⟩ => ⟨tk, by rw [h3]; exact a, b⟩)) hwk',
       mapOK_createTask isMap ((wakeNext_mapFrame p).mid hmap hlt) hlt'⟩ (by rw [reqsLen_createTask]; exact hlt')
     · intro i tk h hn; rw [h3] at h; exact hph i tk h hn
     · cases cap with
@@ -62,18 +81,25 @@ theorem roomGranted_tail {cap : Cap} {L : Bool} (p : Pool) (m : Nat) (isMap : Bo
         obtain ⟨v', h1, h2, _⟩ := wakeNext_effect p v hv hpos
         exact ⟨v', h1, by rw [h3]; omega⟩
       | inf => exact wakeNext_inf p hpre.1 hpre.2
-  · exact good_continueSpawner _ m ⟨good0_createTask_afterTake p m _ hph hreg hgrp hlife hpre hst hfl,
+  · rename_i hz
+    refine good_continueSpawner _ m ⟨good0_createTask_afterTake p m _ hph hreg hgrp hlife hpre hst hfl ?_,
       mapOK_createTask isMap hmap hlt⟩ (by rw [reqsLen_createTask]; exact hlt)
+    -- no free slot: nothing to show
+    intro _ v hv hpos
+    rw [hv] at hz
+    cases v with
+    | zero => omega
+    | succ n => simp [Cap.isZero] at hz
 
-theorem roomGranted_good {cap : Cap} {L : Bool} (p : Pool) (m : Nat) (r : Req) (hph : PhaseOK p) (hreg : RegOK p)
-    (hgrp : GroupsOK p) (hlife : LifeOK p) (hpre : SlotPre cap p) (hst : Strict L p)
+theorem roomGranted_good {cap : Cap} {L R : Bool} (p : Pool) (m : Nat) (r : Req) (hph : PhaseOK p) (hreg : RegOK p)
+    (hgrp : GroupsOK p) (hlife : LifeOK p) (hpre : SlotPre cap p) (hst : Strict L R p)
     (hmap : MapOK p) (hlt : m < p.reqs.length)
     (hfr : ReqAt p m (fun x => x.frame = .waitRoom ∧ x.kind = r.kind)) (hfl : FlushOK p) :
-    Good cap L (p.roomGranted m r) := by
+    Good cap L R (p.roomGranted m r) := by
   unfold roomGranted
   simp only
   refine roomGranted_tail (p.modReq m fun x => { x with frame := MFrame.running }) m (r.kind == .map) hph
-    (hreg.of_eq rfl rfl rfl rfl rfl) (hgrp.of_eq rfl rfl) (hlife.of_eq rfl rfl) hpre hst ?_ (by simpa [modReq] using hlt)
+    (hreg.of_eq rfl rfl rfl rfl rfl) (hgrp.of_eq rfl rfl) (hlife.of_eq rfl rfl) hpre (hst.of_eq rfl rfl) ?_ (by simpa [modReq] using hlt)
     (hfl.frame rfl rfl (fun _ h => h))
   -- the ghost frame: the map slot a map spawner carried is now in flight
   refine (hmap.mid m).modReq _ _ ?_ (fun _ => rfl) (fun _ _ _ _ hf => by cases hf)
@@ -147,14 +173,15 @@ theorem mapOK_finishMeta_carried {p : Pool} {m : Nat} (o : Outcome) (h : MapMid 
 
 /-- `CancelledError` inside `_enough_room.acquire()`: a granted pool slot goes back, and so does the map slot a map
 spawner carried -/
-theorem roomWaitCancelled_good {cap : Cap} {L : Bool} (p : Pool) (m : Nat) (r : Req) (st : Option WaitSt) (hph : PhaseOK p)
-    (hreg : RegOK p) (hgrp : GroupsOK p) (hlife : LifeOK p) (hsg : SlotGrant cap p st) (hst' : Strict L p)
+theorem roomWaitCancelled_good {cap : Cap} {L R : Bool} (p : Pool) (m : Nat) (r : Req) (st : Option WaitSt) (hph : PhaseOK p)
+    (hreg : RegOK p) (hgrp : GroupsOK p) (hlife : LifeOK p) (hsg : SlotGrant cap p st) (hst' : Strict L R p)
     (hmap : MapOK p) (hlt : m < p.reqs.length)
-    (hfr : ReqAt p m (fun x => x.frame = .waitRoom ∧ x.kind = r.kind ∧ x.acquired = r.acquired)) (hfl : FlushOK p) :
-    Good cap L (p.roomWaitCancelled m r st) := by
+    (hfr : ReqAt p m (fun x => x.frame = .waitRoom ∧ x.kind = r.kind ∧ x.acquired = r.acquired)) (hfl : FlushOK p)
+    (hwk : st ≠ some .granted → WakeOK p) :
+    Good cap L R (p.roomWaitCancelled m r st) := by
   unfold roomWaitCancelled
   simp only
-  have key : Good cap L (if (st == some WaitSt.granted) = true then p.releasePool else p) ∧
+  have key : Good cap L R (if (st == some WaitSt.granted) = true then p.releasePool else p) ∧
       ReqAt (if (st == some WaitSt.granted) = true then p.releasePool else p) m
         (fun x => x.frame = .waitRoom ∧ x.kind = r.kind ∧ x.acquired = r.acquired) ∧
       m < (if (st == some WaitSt.granted) = true then p.releasePool else p).reqs.length := by
@@ -165,7 +192,8 @@ theorem roomWaitCancelled_good {cap : Cap} {L : Bool} (p : Pool) (m : Nat) (r : 
       obtain ⟨r1, r2, r3, r4⟩ := releasePool_regs p
       refine ⟨⟨⟨?_, ?_, hreg.of_eq h3 r1 r2 r3 r4, hgrp.of_eq (releasePool_groups p) (by rw [h3]), hlife.of_eq h3 r4,
         hfl.frame (releasePool_gathers p) (releasePool_apis p) (fun t ⟨tk, a, b⟩ => ⟨tk, by rw [h3]; exact a, b⟩),
-        (hst'.of_eq r4 (releasePool_apis p)).1, (hst'.of_eq r4 (releasePool_apis p)).2⟩,
+        wakeOK_releasePool p,
+        (hst'.of_eq r4 (releasePool_apis p) (releasePool_resized p)).rz, (hst'.of_eq r4 (releasePool_apis p) (releasePool_resized p)).ll, (hst'.of_eq r4 (releasePool_apis p) (releasePool_resized p)).al⟩,
         (mapFrame_releasePool p).map hmap⟩, reqAt_releasePool hfr (fun _ h => h),
         Nat.lt_of_lt_of_le hlt (mapFrame_releasePool p).rql⟩
       · cases cap with
@@ -178,7 +206,7 @@ theorem roomWaitCancelled_good {cap : Cap} {L : Bool} (p : Pool) (m : Nat) (r : 
       · intro i tk h hn; rw [h3] at h; exact hph i tk h hn
     · rename_i h
       have hst : ¬ st = some .granted := by simpa using h
-      refine ⟨⟨⟨?_, hph, hreg, hgrp, hlife, hfl, hst'.1, hst'.2⟩, hmap⟩, hfr, hlt⟩
+      refine ⟨⟨⟨?_, hph, hreg, hgrp, hlife, hfl, hwk hst, hst'.rz, hst'.ll, hst'.al⟩, hmap⟩, hfr, hlt⟩
       cases cap with
       | fin n =>
         obtain ⟨v, hv, hs⟩ := hsg
@@ -196,10 +224,10 @@ theorem roomWaitCancelled_good {cap : Cap} {L : Bool} (p : Pool) (m : Nat) (r : 
     simp [Req.pend, a, b.trans hkm.1, c.trans hkm.2]
   · exact (tame_finishMeta _ m _).good kg
 
-theorem good_wakeWaitRoom {cap : Cap} {L : Bool} (p : Pool) (m : Nat) (r : Req) (hg : Good cap L p)
+theorem good_wakeWaitRoom {cap : Cap} {L R : Bool} (p : Pool) (m : Nat) (r : Req) (hg : Good cap L R p)
     (hlt : m < p.reqs.length)
     (hfr : ReqAt p m (fun x => x.frame = .waitRoom ∧ x.kind = r.kind ∧ x.acquired = r.acquired)) :
-    Good cap L (p.wakeWaitRoom m r) := by
+    Good cap L R (p.wakeWaitRoom m r) := by
   unfold wakeWaitRoom
   simp only
   have hrm := removeWaiterL_grants m p.sem.waiters
@@ -212,8 +240,8 @@ theorem good_wakeWaitRoom {cap : Cap} {L : Bool} (p : Pool) (m : Nat) (r : Req) 
       fun x => { x with mustCancel := false }) := hg.grp.of_eq rfl rfl
   have hlife : LifeOK (({ p with sem := { p.sem with waiters := (removeWaiterL m p.sem.waiters).2 } } : Pool).modReq m
       fun x => { x with mustCancel := false }) := hg.life.of_eq rfl rfl
-  have hstr : Strict L (({ p with sem := { p.sem with waiters := (removeWaiterL m p.sem.waiters).2 } } : Pool).modReq m
-      fun x => { x with mustCancel := false }) := hg.strict
+  have hstr : Strict L R (({ p with sem := { p.sem with waiters := (removeWaiterL m p.sem.waiters).2 } } : Pool).modReq m
+      fun x => { x with mustCancel := false }) := hg.strict.of_eq rfl rfl
   have hmp : MapOK (({ p with sem := { p.sem with waiters := (removeWaiterL m p.sem.waiters).2 } } : Pool).modReq m
       fun x => { x with mustCancel := false }) :=
     (tame_modReq _ m _).map (hg.map.of_eq rfl rfl)
@@ -224,8 +252,18 @@ theorem good_wakeWaitRoom {cap : Cap} {L : Bool} (p : Pool) (m : Nat) (r : Req) 
   have hfr2 : ReqAt (({ p with sem := { p.sem with waiters := (removeWaiterL m p.sem.waiters).2 } } : Pool).modReq m
       fun x => { x with mustCancel := false }) m (fun x => x.frame = .waitRoom ∧ x.kind = r.kind ∧ x.acquired = r.acquired) :=
     ReqAt.modReq (p := ({ p with sem := { p.sem with waiters := (removeWaiterL m p.sem.waiters).2 } } : Pool)) hfr _ (fun _ h => h)
+  -- without a granted slot in the removed entry the invariant carries over (fewer waiters, same grants)
+  have hwk : (removeWaiterL m p.sem.waiters).1 ≠ some .granted →
+      WakeOK (({ p with sem := { p.sem with waiters := (removeWaiterL m p.sem.waiters).2 } } : Pool).modReq m
+        fun x => { x with mustCancel := false }) := by
+    intro hng a v b c d w hw
+    have hsub : ∀ w, w ∈ (removeWaiterL m p.sem.waiters).2 → w ∈ p.sem.waiters := removeWaiterL_sub m p.sem.waiters
+    have hgr : grantsL p.sem.waiters = 0 := by
+      have d' : grantsL (removeWaiterL m p.sem.waiters).2 = 0 := d
+      simp [hng] at hrm; omega
+    exact hg.wk a v b c hgr w (hsub w hw)
   split
-  · refine roomWaitCancelled_good _ m r _ hph hreg hgrp hlife ?_ hstr hmp hlt2 hfr2 hfl
+  · refine roomWaitCancelled_good _ m r _ hph hreg hgrp hlife ?_ hstr hmp hlt2 hfr2 hfl hwk
     cases cap with
     | fin n =>
       obtain ⟨v, hv, hs⟩ := hg.slot
@@ -246,7 +284,7 @@ theorem good_wakeWaitRoom {cap : Cap} {L : Bool} (p : Pool) (m : Nat) (r : Req) 
       exact ⟨hv, by simp [modReq, hw, removeWaiterL]⟩
     · rename_i hc hgr
       have hst : ¬ (removeWaiterL m p.sem.waiters).1 = some .granted := by simpa using hgr
-      refine ⟨⟨?_, hph, hreg, hgrp, hlife, hfl, hstr.1, hstr.2⟩, hmp⟩
+      refine ⟨⟨?_, hph, hreg, hgrp, hlife, hfl, hwk hst, hstr.rz, hstr.ll, hstr.al⟩, hmp⟩
       cases cap with
       | fin n =>
         obtain ⟨v, hv, hs⟩ := hg.slot
@@ -257,11 +295,11 @@ theorem good_wakeWaitRoom {cap : Cap} {L : Bool} (p : Pool) (m : Nat) (r : Req) 
 
 /-- the call's own semaphore handed the spawner a slot: it is in flight until the task is created or the spawner
 starts waiting for room -/
-theorem good_mapSemGranted {cap : Cap} {L : Bool} (p : Pool) (m : Nat) (r : Req) (hg : Good0 cap L p)
-    (hmap : MapMid p m 1) (hlt : m < p.reqs.length) : Good cap L (p.mapSemGranted m r) := by
+theorem good_mapSemGranted {cap : Cap} {L R : Bool} (p : Pool) (m : Nat) (r : Req) (hg : Good0 cap L R p)
+    (hmap : MapMid p m 1) (hlt : m < p.reqs.length) : Good cap L R (p.mapSemGranted m r) := by
   unfold mapSemGranted
   simp only
-  have hg1 : Good0 cap L (p.modReq m fun x => { x with acquired := true, frame := MFrame.running }) :=
+  have hg1 : Good0 cap L R (p.modReq m fun x => { x with acquired := true, frame := MFrame.running }) :=
     (tame0_modReq p m _).good0 hg
   have hm1 : MapMid (p.modReq m fun x => { x with acquired := true, frame := MFrame.running }) m 1 := by
     refine hmap.modReq _ 1 ?_ (fun _ => rfl) (fun _ _ _ _ hf => by cases hf)
@@ -277,12 +315,12 @@ theorem good_mapSemGranted {cap : Cap} {L : Bool} (p : Pool) (m : Nat) (r : Req)
   · exact good_mapLoop m _ _ h (Nat.lt_of_lt_of_le hlt1 hle)
   · exact h
 
-theorem good_wakeWaitMapSem {cap : Cap} {L : Bool} (p : Pool) (m : Nat) (r : Req) (hg : Good cap L p)
+theorem good_wakeWaitMapSem {cap : Cap} {L R : Bool} (p : Pool) (m : Nat) (r : Req) (hg : Good cap L R p)
     (hlt : m < p.reqs.length) (hat : ReqAt p m (fun x => x.mapSem.waiters = r.mapSem.waiters)) :
-    Good cap L (p.wakeWaitMapSem m r) := by
+    Good cap L R (p.wakeWaitMapSem m r) := by
   unfold wakeWaitMapSem
   simp only
-  have hg0 : Good0 cap L (p.modReq m fun x => { x with mapSem := { x.mapSem with waiters := (removeWaiterL m r.mapSem.waiters).2 }, mustCancel := false }) :=
+  have hg0 : Good0 cap L R (p.modReq m fun x => { x with mapSem := { x.mapSem with waiters := (removeWaiterL m r.mapSem.waiters).2 }, mustCancel := false }) :=
     (tame0_modReq p m _).good0 hg.toGood0
   have hrm := removeWaiterL_grants m r.mapSem.waiters
   have hm0 : MapMid (p.modReq m fun x => { x with mapSem := { x.mapSem with waiters := (removeWaiterL m r.mapSem.waiters).2 }, mustCancel := false }) m
@@ -317,7 +355,7 @@ theorem good_wakeWaitMapSem {cap : Cap} {L : Bool} (p : Pool) (m : Nat) (r : Req
       rw [if_neg hst] at hm0
       exact ⟨hg0, hm0.ok⟩
 
-theorem good_stepMeta {cap : Cap} {L : Bool} (p : Pool) (m : Nat) (hg : Good cap L p) : Good cap L (p.stepMeta m) := by
+theorem good_stepMeta {cap : Cap} {L R : Bool} (p : Pool) (m : Nat) (hg : Good cap L R p) : Good cap L R (p.stepMeta m) := by
   unfold stepMeta
   split
   · exact hg
@@ -420,8 +458,8 @@ theorem tame_gatherScan (g : Nat) (cs : List Child) (i : Nat) (p : Pool) : Tame 
 /-- a new gather is appended: it has not completed unless it has no children at all -/
 theorem tame_addGather (p : Pool) (G : Gather) (amb : Bool) (hG : G.outer = some .ok → G.children = []) :
     Tame p ({ p with gathers := p.gathers ++ [G], ambiguous := amb } : Pool) := by
-  refine ⟨⟨rfl, rfl, rfl, rfl, rfl, rfl, rfl, fun h => h, List.Sublist.refl _, fun _ tk' h => ⟨tk', h, rfl⟩, rfl, ?_⟩,
-    Nat.le_refl _, fun _ r' h => Or.inl ⟨r', h, MSigLe.refl r'⟩⟩
+  refine ⟨⟨rfl, rfl, rfl, rfl, rfl, rfl, rfl, fun h => h, List.Sublist.refl _, fun _ tk' h => ⟨tk', h, rfl⟩, rfl, ?_,
+    fun h => h.of_eq rfl rfl, rfl⟩, Nat.le_refl _, fun _ r' h => Or.inl ⟨r', h, MSigLe.refl r'⟩⟩
   intro h
   refine ⟨?_, ?_⟩
   · intro g G' hg hok t ht
@@ -505,8 +543,8 @@ def ApiAt (p : Pool) (a : Nat) (P : Api → Prop) : Prop := ∀ x, p.apis[a]? = 
 
 /-- the last step of `flush`: nothing is lost, because every task of the cancelled snapshot has finished — hence has
 handed back its slot and left the cancelled registry -/
-theorem good_flushAfter2 {cap : Cap} {L : Bool} (p : Pool) (a o) (hg : Good cap L p)
-    (hdone : o = .ok → ∀ t ∈ (p.apis[a]?.getD default).snapC, TaskFin p t) : Good cap L (p.flushAfter2 a o) := by
+theorem good_flushAfter2 {cap : Cap} {L R : Bool} (p : Pool) (a o) (hg : Good cap L R p)
+    (hdone : o = .ok → ∀ t ∈ (p.apis[a]?.getD default).snapC, TaskFin p t) : Good cap L R (p.flushAfter2 a o) := by
   unfold flushAfter2
   split
   · simp only
@@ -522,15 +560,15 @@ theorem good_flushAfter2 {cap : Cap} {L : Bool} (p : Pool) (a o) (hg : Good cap 
       rw [a1] at a2; cases a2
       rw [hrel] at b2; cases b2
     refine ⟨⟨hg.slot, hg.phase, ?_, hg.grp.of_eq rfl rfl, hg.life.lostMono rfl (fun h => by simp [h]),
-      hg.fl.frame rfl rfl (fun _ h => h),
+      hg.fl.frame rfl rfl (fun _ h => h), hg.wk.of_eq rfl rfl, hg.rz,
       fun h => by show (p.lost || _) = false; rw [hg.ll h, hnone (hg.ll h)]; rfl, hg.al⟩, hg.map.of_eq rfl rfl⟩
     exact hg.reg.flushForget _ _ _ rfl rfl rfl rfl (by simp)
   · exact (tame_finishApi p a _).good hg
 
 /-- the second half of `flush`, from the start of its second gather -/
-theorem flush_tail {cap : Cap} {L : Bool} (P : Pool) (a : Nat) (re : Bool) (cs1 cs2 : List Nat) (hg : Good cap L P)
+theorem flush_tail {cap : Cap} {L R : Bool} (P : Pool) (a : Nat) (re : Bool) (cs1 cs2 : List Nat) (hg : Good cap L R P)
     (hsn : ApiAt P a (fun x => x.snapC = cs2 ∧ x.kind.isGac = false)) :
-    Good cap L (match (P.gatherStart (cs1.map Child.task ++ cs2.map Child.task) re a 0).1.gatherOuter
+    Good cap L R (match (P.gatherStart (cs1.map Child.task ++ cs2.map Child.task) re a 0).1.gatherOuter
         (P.gatherStart (cs1.map Child.task ++ cs2.map Child.task) re a 0).2 with
       | some o => (P.gatherStart (cs1.map Child.task ++ cs2.map Child.task) re a 0).1.flushAfter2 a o
       | none => (P.gatherStart (cs1.map Child.task ++ cs2.map Child.task) re a 0).1.modApi a fun x =>
@@ -579,9 +617,9 @@ theorem flush_tail {cap : Cap} {L : Bool} (P : Pool) (a : Nat) (re : Bool) (cs1 
     · simp only [e, if_false] at hfr' hk ⊢
       exact hf.api i x g hx hfr' hk
 
-theorem good_flushAfter1 {cap : Cap} {L : Bool} (p : Pool) (a re o) (hg : Good cap L p)
+theorem good_flushAfter1 {cap : Cap} {L R : Bool} (p : Pool) (a re o) (hg : Good cap L R p)
     (hfr : ApiAt p a (fun x => (∀ g, x.frame ≠ .gather2 g) ∧ x.kind.isGac = false)) :
-    Good cap L (p.flushAfter1 a re o) := by
+    Good cap L R (p.flushAfter1 a re o) := by
   unfold flushAfter1
   split
   · exact (tame_finishApi p a _).good hg
@@ -598,9 +636,9 @@ theorem good_flushAfter1 {cap : Cap} {L : Bool} (p : Pool) (a re o) (hg : Good c
     rw [if_pos rfl]
     exact ⟨rfl, (hfr y hy).2⟩
 
-theorem good_flushStage1 {cap : Cap} {L : Bool} (p : Pool) (a re) (hg : Good cap L p)
+theorem good_flushStage1 {cap : Cap} {L R : Bool} (p : Pool) (a re) (hg : Good cap L R p)
     (hfr : ApiAt p a (fun x => (∀ g, x.frame ≠ .gather2 g) ∧ x.kind.isGac = false)) :
-    Good cap L (p.flushStage1 a re) := by
+    Good cap L R (p.flushStage1 a re) := by
   unfold flushStage1
   simp only
   have h1 : Tame p ({ p with reqs := p.reqs.map fun (r : Req) => if r.inRunning && r.outcome.isSome then { r with inRunning := false } else r } : Pool) :=
@@ -612,14 +650,14 @@ theorem good_flushStage1 {cap : Cap} {L : Bool} (p : Pool) (a re) (hg : Good cap
     exact hfr x hx
   · exact (Tame.trans (Tame.trans h1 (tame_gatherStart _ _ _ _ _)) (tame_modApi _ a _)).good hg
 
-theorem good_gacAfter2 {cap : Cap} (p : Pool) (a o) (hg : Good cap true p) : Good cap true (p.gacAfter2 a o) := by
+theorem good_gacAfter2 {cap : Cap} (p : Pool) (a o) (hg : Good cap true R p) : Good cap true R (p.gacAfter2 a o) := by
   unfold gacAfter2
   split
   · simp only
     refine (tame_finishApi _ a _).good ?_
     refine (tame_foldl _ _ (fun p w => tame_schedApi p w) _).good ?_
     exact ⟨⟨hg.slot, hg.phase, hg.reg.gacClear _ rfl rfl rfl rfl rfl, hg.grp.of_eq rfl rfl,
-      hg.life.lostMono rfl (fun h => by simp [h]), hg.fl.frame rfl rfl (fun _ h => h),
+      hg.life.lostMono rfl (fun h => by simp [h]), hg.fl.frame rfl rfl (fun _ h => h), hg.wk.of_eq rfl rfl, hg.rz,
       fun h => Bool.noConfusion h, fun h => Bool.noConfusion h⟩,
       hg.map.of_eq rfl rfl⟩
   · exact (tame_finishApi p a _).good hg
@@ -641,8 +679,8 @@ theorem tame_gacGather2 (p : Pool) (a g : Nat) (hk : ApiAt p a (fun x => x.kind.
   · simp only [e, if_false] at hfr' hkind ⊢
     exact hf.api i x g' hx hfr' hkind
 
-theorem good_gacAfter1 {cap : Cap} (p : Pool) (a re g) (hg : Good cap true p)
-    (hk : ApiAt p a (fun x => x.kind.isGac = true)) : Good cap true (p.gacAfter1 a re g) := by
+theorem good_gacAfter1 {cap : Cap} (p : Pool) (a re g) (hg : Good cap true R p)
+    (hk : ApiAt p a (fun x => x.kind.isGac = true)) : Good cap true R (p.gacAfter1 a re g) := by
   unfold gacAfter1
   simp only
   split
@@ -656,8 +694,8 @@ theorem good_gacAfter1 {cap : Cap} (p : Pool) (a re g) (hg : Good cap true p)
       rw [(gatherStart_facts _ _ _ _ _).2] at hx
       exact hk x hx
 
-theorem good_gacStage1 {cap : Cap} (p : Pool) (a re) (hg : Good cap true p)
-    (hk : ApiAt p a (fun x => x.kind.isGac = true)) : Good cap true (p.gacStage1 a re) := by
+theorem good_gacStage1 {cap : Cap} (p : Pool) (a re) (hg : Good cap true R p)
+    (hk : ApiAt p a (fun x => x.kind.isGac = true)) : Good cap true R (p.gacStage1 a re) := by
   unfold gacStage1
   simp only
   split
@@ -676,7 +714,7 @@ theorem tame_untilClosedStart (p : Pool) (a) : Tame p (p.untilClosedStart a) := 
   · refine Tame.trans ?_ (tame_modApi _ a _)
     exact tame_of_eq _ _ rfl rfl
 
-theorem good_stepApi {cap : Cap} {L : Bool} (p : Pool) (a) (hg : Good cap L p) : Good cap L (p.stepApi a) := by
+theorem good_stepApi {cap : Cap} {L R : Bool} (p : Pool) (a) (hg : Good cap L R p) : Good cap L R (p.stepApi a) := by
   unfold stepApi
   split
   · exact hg
@@ -684,7 +722,7 @@ theorem good_stepApi {cap : Cap} {L : Bool} (p : Pool) (a) (hg : Good cap L p) :
     split
     · exact hg
     · simp only
-      have hg0 : Good cap L (p.modApi a fun x => { x with sched := false }) := (tame_modApi p a _).good hg
+      have hg0 : Good cap L R (p.modApi a fun x => { x with sched := false }) := (tame_modApi p a _).good hg
       have hat : ∀ P : Api → Prop, P { A with sched := false } → ApiAt (p.modApi a fun x => { x with sched := false }) a P := by
         intro P hP x hx
         simp only [modApi] at hx
@@ -743,7 +781,7 @@ theorem good_stepApi {cap : Cap} {L : Bool} (p : Pool) (a) (hg : Good cap L p) :
       · exact hg0
 
 /-- running any handle preserves `Good` -/
-theorem good_runRef {cap : Cap} {L : Bool} (p : Pool) (r : Ref) (hg : Good cap L p) : Good cap L (p.runRef r) := by
+theorem good_runRef {cap : Cap} {L R : Bool} (p : Pool) (r : Ref) (hg : Good cap L R p) : Good cap L R (p.runRef r) := by
   cases r with
   | task t => exact good_stepTask p t hg
   | spawner m => exact good_stepMeta p m hg
@@ -751,10 +789,10 @@ theorem good_runRef {cap : Cap} {L : Bool} (p : Pool) (r : Ref) (hg : Good cap L
   | gchild g i => exact (tame_gatherChildDone p g i true).good hg
 
 /-- registering a `flush` / `gather_and_close` / `until_closed` call -/
-theorem good_addApi {cap : Cap} {L : Bool} (p : Pool) (k : ApiKind) (hg : Good cap L p) (hk : L = false → k.isGac = false) :
-    Good cap L (p.addApi k) := by
+theorem good_addApi {cap : Cap} {L R : Bool} (p : Pool) (k : ApiKind) (hg : Good cap L R p) (hk : L = false → k.isGac = false) :
+    Good cap L R (p.addApi k) := by
   refine ⟨⟨hg.slot, hg.phase, hg.reg.of_eq rfl rfl rfl rfl rfl, hg.grp.of_eq rfl rfl, hg.life.of_eq rfl rfl, ?_,
-    hg.ll, ?_⟩, hg.map.of_eq rfl rfl⟩
+    hg.wk.of_eq rfl rfl, hg.rz, hg.ll, ?_⟩, hg.map.of_eq rfl rfl⟩
   · refine ⟨hg.fl.gth, ?_⟩
     intro a A g ha hfr hkind
     have ha' : (p.apis ++ [{ kind := k, frame := AFrame.notStarted, sched := true, outcome := none }])[a]? = some A := ha
@@ -817,8 +855,8 @@ def _root_.Taskpool.Op.isGac : Op → Bool
   | _ => false
 
 /-- every external operation except `pool_size = …` preserves `Good`; the strict variant excludes `gather_and_close` -/
-theorem good_applyOp {cap : Cap} {L : Bool} (p : Pool) (op : Op) (hn : op.isSetSize = false)
-    (ha : L = false → op.isGac = false) (hg : Good cap L p) : Good cap L (p.applyOp op).1 := by
+theorem good_applyOp {cap : Cap} {L R : Bool} (p : Pool) (op : Op) (hn : op.isSetSize = false)
+    (ha : L = false → op.isGac = false) (hg : Good cap L R p) : Good cap L R (p.applyOp op).1 := by
   by_cases h : op.isAsync = true
   · cases op with
     | flush re => exact good_addApi _ _ hg (fun _ => rfl)
